@@ -72,6 +72,10 @@ type vfoScn struct {
 	SelfEnd      bool              // the input stays open until the run returns by itself
 	CrossPut     bool // with PutErr: the refused command is `smove key key2 #id` over two nodes, refused with ErrCrossSlots (plain mode retries it)
 	PutErr       bool // one command of the stream is refused by the router (MSET over two nodes): Exec/Dispatch return that error before sending
+	// session 5: the refused command is ALONE in its flush (BatchCmdCount 1): no node batch exists, only the recorded Put error
+	Lone     bool
+	LoneLast bool   // it is the last command of the stream: nothing routable ever joins it in the queue
+	CrossCmd string // del | unlink | mset | smove: the multi-key command over two nodes
 }
 
 // pipelined: does the sender run pipelined? Transactional replay to a cluster with resuming from the
@@ -101,6 +105,7 @@ type vfoResult struct {
 	Final1    string
 	Err1      error
 	Arrivals1 map[int]int
+	MemCP     int64 // the in-memory position of the output when the run ended (-1: none)
 }
 
 // vfoObsClient wraps the real cluster client: every batcher logs, into the cluster double's global
@@ -154,7 +159,11 @@ func (b *vfoObsBatcher) Put(cmd string, args ...interface{}) error {
 			b.off = vfoArgString(args[2])
 		}
 	}
-	return b.CmdBatcher.Put(cmd, args...)
+	err := b.CmdBatcher.Put(cmd, args...)
+	if err != nil {
+		b.d.Log(fmt.Sprintf("PR:%d:%s", b.n, strings.ToLower(cmd))) // refused by the router: in no node batch
+	}
+	return err
 }
 
 func vfoErrTok(err error) string {
@@ -274,10 +283,12 @@ func vfoRun(scn *vfoScn) (*vfoResult, error) {
 		return false
 	}
 	var batchSeq int32
+	var connected atomic.Int32 // clients that have read their initial slot map
 	observe := func(o *RedisOutput) {
 		rc := o.cfg.Redis
 		o.newRedisConn = func(ctx context.Context) (client.Redis, error) {
 			cl, err := client.NewRedis(rc)
+			connected.Add(1)
 			if err != nil {
 				return nil, err
 			}
@@ -298,7 +309,9 @@ func vfoRun(scn *vfoScn) (*vfoResult, error) {
 	ids := make([]int, 0, len(scn.Cmds))
 	ends := map[int]int64{} // command id -> stream offset after it
 	for _, c := range scn.Cmds {
-		if c.Key2 > 0 && scn.CrossPut {
+		if c.Key2 > 0 && (scn.CrossCmd == "del" || scn.CrossCmd == "unlink") {
+			stream = append(stream, vfoEncode(scn.CrossCmd, scn.Keys[c.Key], scn.Keys[c.Key2-1])...)
+		} else if c.Key2 > 0 && (scn.CrossPut || scn.CrossCmd == "smove") && scn.CrossCmd != "mset" {
 			stream = append(stream, vfoEncode("smove", scn.Keys[c.Key], scn.Keys[c.Key2-1], fmt.Sprintf("#%d", c.ID))...)
 		} else if c.Key2 > 0 {
 			stream = append(stream, vfoEncode("mset", scn.Keys[c.Key], fmt.Sprintf("#%d", c.ID), scn.Keys[c.Key2-1], fmt.Sprintf("#%d", c.ID))...)
@@ -390,8 +403,25 @@ func vfoRun(scn *vfoScn) (*vfoResult, error) {
 	// that does neither within the deadline is judged, as "sender-stalled".
 	finished := false
 	dl := time.Now().Add(12 * time.Second)
+	refusals := func() int {
+		tr, _, _ := d.Snapshot()
+		n := 0
+		for _, e := range tr {
+			if strings.HasPrefix(e, "PR:") {
+				n++
+			}
+		}
+		return n
+	}
 	for !finished {
-		if !scn.SelfEnd && d.AllExecuted(ids) {
+		if scn.LoneLast && refusals() >= 5 {
+			// sendFunc makes at most three attempts on one flush: a fifth refusal of the (only) refused
+			// command means that a flush holding it has returned nil and a later flush put it again - the
+			// sender will never report it by itself. End the input: what the run returns now is its verdict.
+			// (A count, not a time: a sender that reports the refusal returns before it.)
+			break
+		}
+		if !scn.SelfEnd && !scn.LoneLast && d.AllExecuted(ids) {
 			if !scn.CpRetry {
 				break
 			}
@@ -454,12 +484,17 @@ func vfoRun(scn *vfoScn) (*vfoResult, error) {
 			return "break"
 		case errors.Is(err, common.ErrMove) || errors.Is(err, common.ErrAsk):
 			return "other" // plain mode: the raw redirect error closes the run
+		case err != nil && scn.Lone && !errors.Is(err, io.EOF) && !strings.Contains(err.Error(), "err(EOF)"):
+			return "other" // a reported target error is a reported error, whenever the input ended (EOF = the input ended)
 		case !early:
 			return "eof"
 		}
 		return "other"
 	}
 	res.Final = classify(res.Err, early)
+	ro.cpGuard.RLock()
+	res.MemCP = ro.checkpointInMem.Offset
+	ro.cpGuard.RUnlock()
 	res.ZExec = -1
 	if scn.Restart && early && !res.Stalled {
 		// the run reported an error: what the syncer does next is start again from the position stored
@@ -478,6 +513,20 @@ func vfoRun(scn *vfoScn) (*vfoResult, error) {
 		d.EnablePark(1)
 		ro2 := NewRedisOutput(cfg)
 		observe(ro2)
+		{
+			// EnablePark(1) serves ONE CLUSTER SLOTS request and parks the next: a late request of the first run's client
+			// (an inform still queued when it was closed) can take that one, and the INITIAL request of the second run's
+			// client is parked - NewCluster never returns (seen once in ~30 runs: the harness hung until the test timeout).
+			// Until the second client has connected, whatever is parked is released (infrastructure, no verdict).
+			before := connected.Load()
+			go func() {
+				for i := 0; i < 4000 && connected.Load() == before; i++ {
+					if d.WaitParked(5*time.Millisecond) && connected.Load() == before {
+						d.ReleaseParked()
+					}
+				}
+			}()
+		}
 		ctx2, cancel2 := context.WithCancel(context.Background())
 		defer cancel2()
 		pr2, pw2 := io.Pipe()
@@ -697,7 +746,7 @@ func vfoMonitor1(scn *vfoScn, res *vfoResult) []vfoViol {
 					// travelled behind the failing command in the same write
 					mech = "offset-in-same-pipeline-as-failed-command"
 				}
-				if scn.Pipeline && !(scn.StallOn && !scn.CpBatch) {
+				if scn.Pipeline && !(scn.StallOn && !scn.CpBatch) && !(scn.Lone && mech == "command-never-reached-a-node") {
 					// pipelined mode dispatches positions (checkpoint ticker) while earlier data batches
 					// are dispatched but not yet acknowledged; whether such a write reaches its node before
 					// or after another node's failing answer is a matter of arrival order, which the
@@ -708,6 +757,18 @@ func vfoMonitor1(scn *vfoScn, res *vfoResult) []vfoViol {
 				out = append(out, vfoViol{"checkpoint-ahead-of-execution", fmt.Sprintf("stored offset %d covers cmd %d (ends at %d), which never took effect (%s); run ended with %s (%v)",
 					maxCp, c.ID, res.Ends[c.ID], mech, res.Final, res.Err), mech})
 				break
+			}
+		}
+	}
+	// session 5: the IN-MEMORY position (no resuming from the target) must not cover a command that no node executed
+	// either: the next run of this output resumes behind it. Judged on the lone-refused scenarios, where no batch is in
+	// flight when the position moves (the pipelined in-memory position moving at Dispatch is part of C19-F2).
+	if scn.Lone && !scn.Resume {
+		for _, c := range scn.Cmds {
+			if c.Key2 > 0 && count[c.ID] == 0 && res.MemCP >= res.Ends[c.ID] {
+				out = append(out, vfoViol{"position-ahead-of-execution", fmt.Sprintf("the in-memory position %d covers cmd %d `%s %s %s` (ends at %d), refused by the router at Put (keys on two nodes) and executed by no node: "+
+					"its flush - the command alone in the batcher, no node batch - returned nil; run ended with %s (%v); the next run resumes behind the command",
+					res.MemCP, c.ID, scn.CrossCmd, scn.Keys[c.Key], scn.Keys[c.Key2-1], res.Ends[c.ID], res.Final, res.Err), "empty-batcher-shortcut-ignores-refused-put"})
 			}
 		}
 	}
@@ -887,6 +948,9 @@ func vfoMonitor(scn *vfoScn, res *vfoResult) []vfoViol {
 // here from the same observations.
 func vfoExecOp(tag string, scn *vfoScn, res *vfoResult) (string, []string, string) {
 	split := 1
+	if scn.Lone {
+		return "", nil, "lone-refused" // no attempt reaches a node: Model/ClusterFlush.lean (op c19f), not ClusterExec
+	}
 	if scn.pipelined() {
 		// a pipelined run is several attempts in flight; only the single-flush scenarios (one Dispatch that
 		// carries data and position) are one attempt: replayed with split = 0, the sender whose position
@@ -1296,6 +1360,16 @@ func vfoGen(r *vfutil.Rand, name string, force string) *vfoScn {
 	if !scn.Txn && !scn.CpRetry && (force == "nofollow-pipe" || force == "nofollow-block" || r.Bool()) {
 		scn.Resume = true
 	}
+	if strings.HasPrefix(force, "lone-cross:") {
+		// lone-cross:<txn|plain>-<block|pipe>:<del|unlink|mset|smove>:<mid|last>[:resume] - a multi-key command whose
+		// keys live on two nodes, alone in its flush (BatchCmdCount 1): the router refuses it at Put, the batcher has
+		// no node batch; in the middle of the stream or as its last command
+		f := strings.Split(force, ":")
+		*scn = vfoScn{Name: name, BC: 1, PutErr: true, Lone: true, CrossCmd: f[2], LoneLast: f[3] == "last", Resume: len(f) > 4}
+		scn.Txn, scn.Pipeline = strings.HasPrefix(f[1], "txn"), strings.HasSuffix(f[1], "pipe")
+		scn.CrossPut = f[2] != "mset" // the router's error is ErrCrossSlots except for MSET
+		scn.SelfEnd = !scn.LoneLast   // in the middle: the run reports it by itself (with the next flush at the latest)
+	}
 	cpNode := vfdoubles.ClusterSlot("vfcp") * 3 / 16384
 	switch force {
 	case "chase-ac":
@@ -1385,17 +1459,26 @@ func vfoGen(r *vfutil.Rand, name string, force string) *vfoScn {
 	if scn.CloseOutside {
 		n, scn.BC = 8, 1
 	}
+	if scn.Lone {
+		n = r.Range(3, 6)
+	}
 	for i := 0; i < n; i++ {
 		t := r.Intn(len(tags))
 		scn.Cmds = append(scn.Cmds, vfoCmd{ID: i + 1, Key: vfutil.Pick(r, tagKeys[t])})
 	}
 	if scn.PutErr {
 		// one key on another node; the command in the middle of the stream is an MSET over both
-		base := vfdoubles.ClusterSlot(scn.Keys[scn.Cmds[len(scn.Cmds)/2].Key]) * 3 / 16384
+		bi := len(scn.Cmds) / 2
+		if scn.LoneLast {
+			bi = len(scn.Cmds) - 1
+		}
+		base := vfdoubles.ClusterSlot(scn.Keys[scn.Cmds[bi].Key]) * 3 / 16384
 		other := vfoTagsOnNode((base+1)%3, 1, name+"y")
 		scn.Keys = append(scn.Keys, fmt.Sprintf("ky{%s}", other[0]))
-		scn.Cmds[len(scn.Cmds)/2].Key2 = len(scn.Keys)
-		if scn.BC < 2 {
+		scn.Cmds[bi].Key2 = len(scn.Keys)
+		if scn.Lone {
+			scn.BC = 1
+		} else if scn.BC < 2 {
 			scn.BC = 2
 		}
 		return scn
@@ -1600,6 +1683,17 @@ func vfoOne(t *testing.T, s *vfutil.Session, idx int, scn *vfoScn) (nops int) {
 				}
 			}
 		}
+		if scn.Lone {
+			// the refused command is alone in the batcher: a sender that reports the refusal never calls Exec / Dispatch
+			// on it (no B token); every attempt puts it once
+			attempts = 0
+			for _, e := range trace1 {
+				if strings.HasPrefix(e, "PR:") {
+					attempts++
+				}
+			}
+			s.Count("lone_refused_" + scn.CrossCmd)
+		}
 		resends = 0
 		if attempts > 1 {
 			resends = attempts - 1
@@ -1627,6 +1721,9 @@ func vfoOne(t *testing.T, s *vfutil.Session, idx int, scn *vfoScn) (nops int) {
 		}
 		putErrOp = fmt.Sprintf("c19s %%s %d %d %d %s %d -,-,-,-,-,-", vfoB2i(scn.Txn), vfoB2i(scn.pipelined()), vfoB2i(scn.Txn), strings.Join(puts, ","), vfoB2i(scn.CrossPut))
 		putErrLine = fmt.Sprintf("%%s attempts=%d submitted=%s final=%s", attempts, sub, res.Final)
+		if scn.Lone {
+			putErrOp, putErrLine = "", "" // c19s is about a batch WITH node batches; the lone flush is op c19o + the monitors
+		}
 		if scn.Txn && len(reached) > 0 {
 			s.Violate("txn-dispatch-failed-but-submitted", fmt.Sprintf("the batch with cmd %d was refused by the router (every Exec/Dispatch of it failed) but commands of it reached node(s) %s", bad, sub),
 				map[string]interface{}{"scenario": fmt.Sprintf("%+v", *scn), "trace": strings.Join(res.Trace, " ")})
@@ -1635,6 +1732,9 @@ func vfoOne(t *testing.T, s *vfutil.Session, idx int, scn *vfoScn) (nops int) {
 	final1 := res.Final
 	if res.ZExec >= 0 {
 		final1 = res.Final1
+	}
+	if os.Getenv("VERIF_C19_DUMP") == tag {
+		fmt.Printf("VFDUMP %s scenario=%+v\n  err=%v final=%s cls=%s path=%s\n  trace=%s\n", tag, *scn, res.Err, res.Final, cls, path, strings.Join(res.Trace, " "))
 	}
 	s.Op(fmt.Sprintf("c19o %s %d %d %s %s %s", tag, vfoB2i(scn.Txn), vfoB2i(scn.pipelined()), cls, path, pers),
 		fmt.Sprintf("%s resends=%d final=%s", tag, resends, final1))
@@ -1714,7 +1814,11 @@ func TestVerifC19Out(t *testing.T) {
 	// every mode with a redirect / cross-slot batch at least a few times
 	forced := []string{"txn-block-resume", "txn-block", "txn-block", "txn-block", "txn-pipe", "txn-pipe", "txn-cross", "txn-cross",
 		"nofollow-block", "nofollow-pipe", "cpbatch-block", "cpbatch-block-1", "cpbatch-block-2", "cpbatch-pipe", "close-outside", "fault", "fault", "fault", "fault", "fault", "fault",
-		"txn-pipe-resume", "chase-ac", "cp-chase-ac", "plain-block-crossput", "cpbatch-pipe-cb", "restart-txn-block", "restart-txn-block", "restart-plain-block", "restart-plain-block", "txn-pipe-puterr", "plain-pipe-puterr", "txn-block-puterr"}
+		"txn-pipe-resume", "chase-ac", "cp-chase-ac", "plain-block-crossput", "cpbatch-pipe-cb", "restart-txn-block", "restart-txn-block", "restart-plain-block", "restart-plain-block", "txn-pipe-puterr", "plain-pipe-puterr", "txn-block-puterr",
+		// session 5: a multi-key command over two nodes ALONE in its flush, in every sender mode
+		"lone-cross:txn-block:del:mid", "lone-cross:txn-block:unlink:last", "lone-cross:txn-pipe:smove:mid", "lone-cross:txn-pipe:del:last",
+		"lone-cross:plain-block:del:mid", "lone-cross:plain-block:mset:last", "lone-cross:plain-pipe:unlink:mid", "lone-cross:plain-pipe:del:last",
+		"lone-cross:txn-block:mset:last:resume", "lone-cross:plain-block:mset:last:resume"}
 	if only := os.Getenv("VERIF_C19_ONLY"); only != "" {
 		forced = []string{only}
 	}
